@@ -571,7 +571,9 @@ var rTaint = &Rule{
 	Run: runTaint,
 }
 
-func runTaint(c *core.Ctx) {
+func runTaint(c *core.Ctx) { runTaintFiltered(c, nil) }
+
+func runTaintFiltered(c *core.Ctx, keep func(*Sink) bool) {
 	e := originEngine(c)
 	cs := GetCensus(c)
 	special := map[*ssa.Function]bool{}
@@ -580,6 +582,9 @@ func runTaint(c *core.Ctx) {
 	}
 	counts := map[string]int{}
 	for _, s := range taintSinks(c) {
+		if keep != nil && !keep(s) {
+			continue
+		}
 		counts[s.Class]++
 		// the whole-text Safe(err.Error()) of a special-case printer is decided by R-SPECIAL-LEAF
 		if special[s.Fn] && len(s.Fn.Params) > 0 {
@@ -603,6 +608,10 @@ func runTaint(c *core.Ctx) {
 		}
 		sort.Strings(badKeys)
 		c.Fail(stableSinkName(s), s.Pos, "unsafe origin reaches a PII-free output ("+s.Mode+" position): "+strings.Join(dedupStr(badKeys), "; "), bad...)
+	}
+	if keep != nil {
+		c.Min("filtered sinks", counts["S3"], 5)
+		return
 	}
 	c.Min("S1 SafeDetails() return sites", counts["S1"], 13)
 	c.Min("S2 encoder safe-details return sites", counts["S2"], 20)
